@@ -698,7 +698,7 @@ def fixtures():
         forest = [
             ('leaf', 'Idle', 'D0'),
             ('super', 'Outer', None, [
-                ('super', 'Inner', None, [('leaf', 'InFlight', 'D1'), ('leaf', 'Slow', None), ('initial', 'Slow')]),
+                ('super', 'Inner', None, [('initial', 'InFlight'), ('leaf', 'InFlight', 'D1'), ('leaf', 'Slow', None), ('initial', 'Slow')]),
                 ('leaf', 'Cooldown', 'D2'),
                 ('super', 'Deep', None, [('super', 'Deeper', None, [('leaf', 'X1', None)]), ('leaf', 'Zed', None)]),
             ]),
@@ -710,6 +710,8 @@ def fixtures():
             # transition-level conditions; hooks of every kind at both levels; payload
             _ev('start', _tr(['Idle', 'Done'], 'Outer', guards=['gt1'], unless=['ut1'], before=['bt1'], after=['at1'], around=['wt1']),
                 payload=pl, guards=['ge1', 'ge2'], unless=['ue1'], before=['be1'], after=['ae1'], around=['we1']),
+            # the same hooks at event and at transition level
+            _ev('reset', _tr(['Done'], 'Idle', guards=['gr1'], unless=['ur1'], before=['br1'], around=['wr1']), guards=['gr1', 'gr2'], unless=['ur1'], before=['br1'], around=['wr1']),
             # outer superstate as a source from deep leaves; two transitions, hooks only on the first
             _ev('stop', _tr(['Inner'], 'Idle', guards=['gs1'], after=['as1']), _tr(['Cooldown', 'Deep'], 'Done')),
             # self-loops on data states, directly and through a superstate source
@@ -732,4 +734,14 @@ def fixtures():
     # typestate-only twin of the first fixture
     d0 = [en for en in out[0] if en[0] != 'dynamic']
     out.append(d0)
+    # superstate-level data (outside the quantifier of C08/C11, but part of the generated API): modelled faithfully
+    def with_super_data(items):
+        res = []
+        for it in items:
+            if it[0] == 'super':
+                res.append(('super', it[1], 'D3' if it[1] == 'Inner' else it[2], with_super_data(it[3])))
+            else:
+                res.append(it)
+        return res
+    out.append([('states', with_super_data(en[1])) if en[0] == 'states' else en for en in out[0]])
     return out
